@@ -1,6 +1,7 @@
 package main
 
 import (
+	"encoding/json"
 	"fmt"
 	"strings"
 
@@ -82,6 +83,55 @@ func runHistoryGo(kp *KeyPair, nu0 *big.Int, time0 int64, steps []any) string {
 			u.SignedAccumulator = &revocation.SignedAccumulator{Data: u.SignedAccumulator.Data, PKCounter: u.SignedAccumulator.PKCounter}
 			h.updates[st.str("u")] = u
 			out = append(out, "update-ok")
+		case "prepend":
+			// older events put in front of an update object, as a client does that fetches history in
+			// chunks; the chunk arrives in memory, or in its wire form with the product of its values
+			u := h.updates[st.str("u")]
+			lo, hi := st.int("from"), st.int("to")
+			var evs []*revocation.Event
+			for _, e := range h.events[lo : hi+1] {
+				evs = append(evs, &revocation.Event{Index: e.Index, E: new(big.Int).Set(e.E), ParentHash: append(revocation.Hash{}, e.ParentHash...)})
+			}
+			list := revocation.NewEventList(evs...)
+			switch st.str("wire") {
+			case "json-product":
+				bts, err := json.Marshal(list)
+				if err != nil {
+					panic(err)
+				}
+				list = &revocation.EventList{ComputeProduct: true}
+				if err := json.Unmarshal(bts, list); err != nil {
+					panic(err)
+				}
+			case "flatten":
+				var parts []*revocation.EventList
+				for _, e := range evs {
+					bts, err := json.Marshal(revocation.NewEventList(e))
+					if err != nil {
+						panic(err)
+					}
+					part := &revocation.EventList{ComputeProduct: true}
+					if err := json.Unmarshal(bts, part); err != nil {
+						panic(err)
+					}
+					parts = append(parts, part)
+				}
+				fl, err := revocation.FlattenEventLists(parts)
+				if err != nil {
+					panic(err)
+				}
+				list = fl
+			}
+			// Prepend works on a verified update (its signed accumulator decoded)
+			if _, err := u.SignedAccumulator.UnmarshalVerify(kp.pk); err != nil {
+				out = append(out, "prepend-sig-err")
+				continue
+			}
+			if err := u.Prepend(list); err != nil {
+				out = append(out, "prepend-err")
+			} else {
+				out = append(out, fmt.Sprintf("prepend-ok:%d", u.Events[0].Index))
+			}
 		case "corruptw":
 			w := h.witnesses[st.str("w")]
 			w.U = new(big.Int).Add(w.U, bi(1))
@@ -165,6 +215,14 @@ func (b *histBuilder) mkbadupdate(id string, from, to int) {
 	b.badupd[id] = true
 	b.expect = append(b.expect, "update-ok")
 }
+
+// prepend: events lo..hi in front of update u (generated only where it must succeed)
+func (b *histBuilder) prepend(u string, lo, hi int, wire string) {
+	b.steps = append(b.steps, map[string]any{"t": "prepend", "u": u, "from": lo, "to": hi, "wire": wire})
+	win := b.upd[u]
+	b.upd[u] = [2]int{lo, win[1]}
+	b.expect = append(b.expect, fmt.Sprintf("prepend-ok:%d", lo))
+}
 func (b *histBuilder) corrupt(w string) {
 	b.steps = append(b.steps, map[string]any{"t": "corruptw", "w": w})
 	b.wit[w].corrupt = true
@@ -242,6 +300,48 @@ func genC09(g *Rng, tier string, emit func(Op)) {
 	for _, kp := range keys {
 		emit(declKey(kp))
 		emit(declSk(kp))
+	}
+	// history fetched in chunks: an update for from..n gets the events lo..hi put in front
+	// (adjacent or overlapping, in memory or from the wire with its product) and is then applied to a
+	// witness that stands right before lo, and to one further back (which must get an error)
+	for _, kp := range keys {
+		n := 4
+		if tier == "thorough" {
+			n = 6
+		}
+		for _, wire := range []string{"", "json-product", "flatten"} {
+			b := newHistBuilder()
+			nu0 := randomQR(g, kp.pk.N)
+			for i := 0; i <= n; i++ {
+				b.witness(fmt.Sprintf("w%d", i), revPrime(g))
+				if i < n {
+					b.revoke(revPrime(g))
+				}
+			}
+			k := 0
+			for from := 2; from <= n; from++ {
+				for lo := 1; lo < from; lo++ {
+					for hi := from - 1; hi <= n && hi <= from+1; hi++ {
+						id := fmt.Sprintf("p%d", k)
+						k++
+						b.mkupdate(id, from, n)
+						b.prepend(id, lo, hi, wire)
+						for _, wi := range []int{lo - 1, lo, n} {
+							tmp := fmt.Sprintf("t%d_%d", k, wi)
+							b.clone(fmt.Sprintf("w%d", wi), tmp)
+							b.apply(tmp, id)
+							b.verifyw(tmp)
+						}
+						if lo >= 2 {
+							tmp := fmt.Sprintf("t%d_far", k)
+							b.clone("w0", tmp)
+							b.apply(tmp, id)
+						}
+					}
+				}
+			}
+			emit(b.op(kp, nu0, "prepended-chunks-"+wire))
+		}
 	}
 	for _, kp := range keys {
 		for nrev := 1; nrev <= maxRev; nrev++ {
